@@ -463,6 +463,9 @@ class LibMixin:
         if name in ("list", "tuple"):
             if not args:
                 return self.list_of([]) if name == "list" else sv.STup([])
+            r = self._hook_builtin(name, args, kwargs, path, node)    # value kinds defined outside this module (arrays)
+            if r is not None:
+                return r
             v = args[0]
             if name == "tuple" and isinstance(v, sv.STup):
                 return v
